@@ -604,6 +604,9 @@ func TestC15(t *testing.T) {
 		}
 	}
 
+	// ---- (i-b) histories of the unwrapped market hook (c15_market_test.go) ----
+	c15MarketHistories(t, a, states["p1"], tr, r, &ci, only, thorough)
+
 	// ---- (ii) crash-point enumeration ----
 	targets := []struct{ hook, state string }{
 		{"liquidationsV2.BeginBlocker", "p1"}, {"liquidationsV2.BeginBlocker", "p2s"}, {"auctionsV2.BeginBlocker", "p2"}, {"auctionsV2.BeginBlocker", "p2e"},
